@@ -104,11 +104,12 @@ func (s *receiveLog) missingSeqNumbers(skipLastN uint16, missingPacketSeqNums []
 	s.m.RLock()
 	defer s.m.RUnlock()
 
-	until := s.end - skipLastN
-	if until-s.lastConsecutive >= rtpbuffer.Uint16SizeHalf {
+	// lastConsecutive is never more than size (<= 32768) behind end, compare without wrap-around ambiguity
+	if s.end-s.lastConsecutive < skipLastN {
 		// until < s.lastConsecutive (counting for rollover)
 		return nil
 	}
+	until := s.end - skipLastN
 
 	c := 0
 	for i := s.lastConsecutive + 1; i != until+1; i++ {
